@@ -7,7 +7,9 @@ tree): every `eventHandlers.Insert` (registration: snapshot + insertion of the h
 nestedjoinmerge.go is called while the collection lock taken earlier in the same function is still
 held, that critical section is the only one opened on the path to the call, and the snapshot an `Insert`
 carries is read from the collection state inside that same critical section (a snapshot taken under the
-lock, `Unlock`, `Lock` again, `Insert` is the registration gap of `reg_gap_witness`).  This is the
+lock, `Unlock`, `Lock` again, `Insert` is the registration gap of `reg_gap_witness`); every `Distribute` and
+every write to the collection state happens under the WRITE lock (a writer under `RLock` would run next to
+a registration that holds the read lock).  This is the
 atomicity hypothesis of `reg_atomic_accepted` (Registration.lean).
 -/
 namespace IstioModel.C16
@@ -25,24 +27,46 @@ def requiredSites : List (String × String × String) :=
     ("mergejoin.go", "mergejoin.RegisterBatch", "Insert"),
     ("mergejoin.go", "mergejoin.onSubCollectionEventHandler", "Distribute") ]
 
-/-- every Insert / Distribute call found in the sources is made with the collection lock held -/
-theorem registration_under_lock : regFacts.all (fun f => f.2.2.2.1) = true := by decide
+/-- the functions without receiver that may touch the state: the constructor of the join (the collection is not
+    published yet). Any other receiver-less function that writes the state breaks the theorems below. -/
+def isCtor (f : String × String × String × Bool × Bool × String × Bool) : Bool := f.2.1 == "func.JoinCollection"
 
-/-- ... and that critical section is the only one the function opened on the way to the call: no
+/-- every Insert / Distribute call and every write to the collection state found in the sources happens with the
+    collection lock held -/
+theorem registration_under_lock : regFacts.all (fun f => isCtor f || f.2.2.2.1) = true := by decide
+
+/-- ... and that critical section is the only one the function opened on the way there: no
     `Unlock` + second `Lock` between computing the events / the snapshot and handing them over -/
-theorem registration_one_critical_section : regFacts.all (fun f => f.2.2.2.2.1) = true := by decide
+theorem registration_one_critical_section : regFacts.all (fun f => isCtor f || f.2.2.2.2.1) = true := by decide
+
+/-- every `Distribute` and every write to the state (`collectionState.outputs / mappings / inputs`,
+    `processedState`, `vals`, `outputs`) is made under the WRITE lock (`Lock()`, not `RLock()`): a registration,
+    which holds at least the read lock while it snapshots and inserts, excludes them -/
+theorem writers_hold_the_write_lock :
+    regFacts.all (fun f => f.2.2.1 == "Insert" || isCtor f || f.2.2.2.2.2.2) = true := by decide
 
 /-- every `Insert` either carries no initial events or reads the collection state it snapshots
     (`collectionState.outputs` / `processedState` / `vals` / `outputs`) inside the critical section of the
     `Insert` itself and nowhere else before it -/
 theorem registration_snapshot_in_same_span :
-    regFacts.all (fun f => f.2.2.1 != "Insert" || f.2.2.2.2.2 == "nil" || f.2.2.2.2.2 == "same-span") = true := by
+    regFacts.all (fun f => f.2.2.1 != "Insert" || f.2.2.2.2.2.1 == "nil" || f.2.2.2.2.2.1 == "same-span") = true := by
   decide
 
 /-- each of the four `RegisterBatch` implementations has an `Insert` that carries such a snapshot -/
 theorem registration_snapshot_sites_present :
     ["manyCollection.RegisterBatch", "staticList.RegisterBatch", "join.RegisterBatch", "mergejoin.RegisterBatch"].all
-      (fun m => regFacts.any (fun f => f.2.1 == m && f.2.2.1 == "Insert" && f.2.2.2.2.2 == "same-span")) = true := by
+      (fun m => regFacts.any (fun f => f.2.1 == m && f.2.2.1 == "Insert" && f.2.2.2.2.2.1 == "same-span")) = true := by
+  decide
+
+/-- the writes the facts speak about were found (a refactoring that hides them from the extractor is a broken tie) -/
+theorem state_write_sites_present :
+    [("manyCollection.handleChangedPrimaryInputEvents", "write collectionState.outputs"),
+     ("manyCollection.handleChangedPrimaryInputEvents", "write collectionState.mappings"),
+     ("staticList.updateObject", "write vals"), ("StaticCollection.Reset", "write vals"),
+     ("join.handleSubCollectionEvents", "write processedState"),
+     ("mergejoin.onSubCollectionEventHandler", "write outputs"),
+     ("nestedjoinmerge.handleCollectionUpdate", "write outputs")].all
+      (fun r => regFacts.any (fun f => f.2.1 == r.1 && f.2.2.1 == r.2)) = true := by
   decide
 
 /-- all the call sites the model speaks about were found -/
